@@ -21,6 +21,7 @@ import (
 	"istio.io/istio/pilot/pkg/networking"
 	"istio.io/istio/pilot/pkg/security/authn"
 	"istio.io/istio/pkg/log"
+	"istio.io/istio/pkg/maps"
 )
 
 var authnLog = log.RegisterScope("authn", "authn debugging")
@@ -82,7 +83,8 @@ func (b *Builder) ForPassthrough() []authn.MTLSSettings {
 	}
 
 	// Then generate the per-port passthrough filter chains.
-	for port := range b.applier.PortLevelSetting() {
+	// in the order of the ports: the filter chains of the listener must not depend on map iteration order
+	for port := range maps.SeqStable(b.applier.PortLevelSetting()) {
 		// Skip the per-port passthrough filterchain if the port is already handled by InboundMTLSConfiguration().
 		if !needPerPortPassthroughFilterChain(port, b.proxy) {
 			continue
